@@ -243,14 +243,19 @@ def _operators(D):
                             else:
                                 doe.np = _NPProxy(np, D.dec('sut', 'seed', 1 << 30) % (1 << 31))
                                 g = ops.LHSGenerator(params); g.init(1 + D.dec('work', ('gn', o), 8)); name = 'LHSGenerator'
-                            vs = g.generate()
-                            ctx.probe('generator_calls')
-                            for v in vs:
-                                ctx.check()
-                                v = [float(x) for x in v]
-                                bad = w.in_box(v)
-                                if bad:
-                                    ctx.violation('generator_out_of_box', name + '.generate', 'design %r: %s' % (v, bad))
+                            # the same generator is asked twice (a second study in the same process): state kept between
+                            # calls - a cache, an array scaled in place - must not leak into the second design
+                            for rep in (1, 2):
+                                vs = g.generate()
+                                ctx.probe('generator_calls')
+                                for v in vs:
+                                    ctx.check()
+                                    v = [float(x) for x in v]
+                                    bad = w.in_box(v)
+                                    if bad:
+                                        ctx.violation('generator_out_of_box', name + '.generate', 'call %d, design %r: %s' % (rep, v, bad))
+                                        break
+                                if ctx.violations:
                                     break
                     finally:
                         doe.np = old_np
